@@ -363,7 +363,7 @@ func (t *fnTrans) wf(v Term, ty types.Type) Term {
 		case u.Info()&types.IsInteger != 0:
 			return t.S.inRange(v, ty)
 		case u.Info()&types.IsString != 0:
-			return fmt.Sprintf("(and (>= (strlen %s) 0) (= (= (strlen %s) 0) (= %s str_empty)))", v, v, v)
+			return fmt.Sprintf("(and (>= (strlen %s) 0) (<= (strlen %s) 9223372036854775807) (= (= (strlen %s) 0) (= %s str_empty)))", v, v, v, v)
 		}
 		return "true"
 	case *types.Pointer, *types.Map, *types.Chan, *types.Signature:
